@@ -8,7 +8,7 @@ ap.add_argument('--jobs', type=int, default=4)
 ap.add_argument('--only', default='')
 a = ap.parse_args()
 VERIF = os.path.dirname(os.path.dirname(os.path.abspath(__file__)))
-EXTRA = {'C19-1': ['C18'], 'C19-2': ['C10'], 'C07-1': ['C08', 'C02'], 'C08-1': ['C07', 'C02'], 'C06-1': ['C05'], 'C10-2': ['C19'], 'C04-2': ['C19']}
+EXTRA = {'C02-17': ['C19'], 'C14-17': ['C19'], 'C19-17': ['C11'], 'C19-1': ['C18'], 'C19-2': ['C10'], 'C07-1': ['C08', 'C02'], 'C08-1': ['C07', 'C02'], 'C06-1': ['C05'], 'C10-2': ['C19'], 'C04-2': ['C19']}
 
 
 def one(d):
